@@ -5,7 +5,7 @@
    silently; `Print Assumptions` lists the axioms it depends on (none are declared by this development). *)
 From Coq Require Import NArith List Bool String.
 From Octo Require Import Base.Bytes Crypto.Prims Lib.Framed Lib.Canon Model.Address Model.NonceGen Model.SsChunk Model.SsTcp Model.Trojan Model.Socks5 Model.Http Generated.Params Generated.Shared
-  Proofs.AddressFacts Proofs.NonceFacts Proofs.SsChunkRoundtrip Proofs.SsChunkCanon Proofs.SsTcpSafety Proofs.SsTcpRoundtrip Proofs.CodecLemmas Proofs.TrojanFacts Proofs.Socks5Facts Proofs.HttpFacts Model.Vmess Proofs.VmessSafety Proofs.VmessFacts Model.SsUdp Proofs.SsUdpFacts.
+  Proofs.AddressFacts Proofs.NonceFacts Proofs.SsChunkRoundtrip Proofs.SsChunkCanon Proofs.SsTcpSafety Proofs.SsTcpRoundtrip Proofs.CodecLemmas Proofs.TrojanFacts Proofs.Socks5Facts Proofs.HttpFacts Model.Vmess Proofs.VmessSafety Proofs.VmessFacts Model.SsUdp Proofs.SsUdpFacts Proofs.VmessRespTamper.
 Import ListNotations.
 Set Printing Width 200.
 
@@ -70,6 +70,31 @@ Definition C10_udp_typed_and_fresh := @accepted_2022_typed_and_fresh.
 (* datagram boundaries 30 / 31 *)
 Definition C10_udp_time_boundary := @udp_time_boundary.
 
+(* VMess client: a response is accepted only if both header blocks were sealed under the request-derived response-header keys of THIS session and carry its response byte (forge-freeness premise) *)
+Definition C10_vmess_response_accept_is_honest := @vm_resp_header_accept_is_honest.
+(* ... hence only the header the server sealed in answer to THIS request (key separation from everything else sealed) *)
+Definition C10_vmess_response_accept_is_own := @vm_resp_header_accept_is_own.
+(* request-derived keys: the genuine response to another request (other key / iv, even with the same response byte) is refused *)
+Definition C10_vmess_response_other_session_refused := @vm_resp_from_other_session_refused.
+(* the client own request reflected is refused *)
+Definition C10_vmess_response_reflected_request_refused := @vm_resp_reflected_request_refused.
+(* the response byte: an authentic header that is empty or carries another first byte is refused *)
+Definition C10_vmess_response_malformed_refused := @vm_resp_malformed_header_refused.
+(* why key separation is a premise: the binding to the request is ONLY through resp_key, resp_iv and the response byte *)
+Definition C10_vmess_response_NOTE_same_derived_keys_accepted := @vm_resp_same_derived_keys_accepted.
+(* non-vacuity: all premises discharged by the ideal opener (two sessions with the same response byte) *)
+Definition C10_vmess_response_nonvacuous_other_session := @VmessRespTamperExamples.ideal_other_session_refused.
+(* computed with the tag-checking toy AEAD: the genuine response to another request is Err EAead *)
+Definition C10_vmess_response_other_session_computed := @VmessRespTamperExamples.resp_other_session.
+
+Check @C10_vmess_response_accept_is_honest.
+Check @C10_vmess_response_accept_is_own.
+Check @C10_vmess_response_other_session_refused.
+Check @C10_vmess_response_reflected_request_refused.
+Check @C10_vmess_response_malformed_refused.
+Check @C10_vmess_response_NOTE_same_derived_keys_accepted.
+Check @C10_vmess_response_nonvacuous_other_session.
+Check @C10_vmess_response_other_session_computed.
 Check @C10_vmess_auth_window.
 Check @C10_vmess_accept_120.
 Check @C10_vmess_reject_121.
@@ -114,3 +139,11 @@ Print Assumptions C10_vmess_response_bound.
 Print Assumptions C10_vmess_response_wrong_byte.
 Print Assumptions C10_udp_typed_and_fresh.
 Print Assumptions C10_udp_time_boundary.
+Print Assumptions C10_vmess_response_accept_is_honest.
+Print Assumptions C10_vmess_response_accept_is_own.
+Print Assumptions C10_vmess_response_other_session_refused.
+Print Assumptions C10_vmess_response_reflected_request_refused.
+Print Assumptions C10_vmess_response_malformed_refused.
+Print Assumptions C10_vmess_response_NOTE_same_derived_keys_accepted.
+Print Assumptions C10_vmess_response_nonvacuous_other_session.
+Print Assumptions C10_vmess_response_other_session_computed.
